@@ -1523,22 +1523,46 @@ fn stream_route(rep: &mut Report, m: &mut Model, root: &Rng, scale: u64, sc: &mu
 
 #[derive(Clone, Debug, PartialEq)]
 enum Op {
+    /// open with O_TRUNC, or O_CREAT|O_EXCL (the file cannot pre-exist): the descriptor starts on an empty file
     Create(String),
+    /// open for writing WITHOUT O_TRUNC / O_EXCL: an existing file keeps its content, writes overwrite in place from offset 0
+    Open(String),
     Write(String, usize),
     Fsync(String),
     Rename(String, String),
+    Unlink(String),
 }
 
 fn op_text(ops: &[Op]) -> String {
-    ops.iter()
-        .map(|o| match o {
-            Op::Create(p) => format!("create {p}"),
-            Op::Write(p, n) => format!("write {p} {n}"),
-            Op::Fsync(p) => format!("fsync {p}"),
-            Op::Rename(a, b) => format!("rename {a} {b}"),
-        })
-        .collect::<Vec<_>>()
-        .join(";")
+    let mut out: Vec<String> = vec![];
+    let mut keep: std::collections::BTreeSet<&str> = Default::default();
+    let mut off: BTreeMap<&str, usize> = BTreeMap::new();
+    for (i, o) in ops.iter().enumerate() {
+        match o {
+            Op::Create(p) => {
+                keep.remove(p.as_str());
+                out.push(format!("create {p}"));
+            }
+            Op::Open(p) => {
+                keep.insert(p.as_str());
+                off.insert(p.as_str(), 0);
+                out.push(format!("open {p}"));
+            }
+            // a write through a non-truncating descriptor is an in-place overwrite at its offset (the model's `writeat`)
+            Op::Write(p, n) if keep.contains(p.as_str()) => {
+                let o = off.entry(p.as_str()).or_insert(0);
+                out.push(format!("writeat {p} {o} {n}"));
+                *o += n;
+            }
+            Op::Write(p, n) => out.push(format!("write {p} {n}")),
+            Op::Fsync(p) => out.push(format!("fsync {p}")),
+            Op::Rename(a, b) => out.push(format!("rename {a} {b}")),
+            // `unlink(tmp)` directly followed by an exclusive create of the same name is one truncating create
+            Op::Unlink(p) if matches!(ops.get(i + 1), Some(Op::Create(q)) if q == p) => {}
+            Op::Unlink(p) => out.push(format!("unlink {p}")),
+        }
+    }
+    out.join(";")
 }
 
 /// child mode: build the store deterministically and save it (run under strace by the parent)
@@ -1561,7 +1585,7 @@ fn traced_save(dir: &Path, path: &Path, mode: &str, seed: u64, n: usize) -> Resu
     let trace = dir.join("trace.txt");
     let exe = std::env::current_exe().map_err(|e| e.to_string())?;
     let st = std::process::Command::new("strace")
-        .args(["-f", "-e", "trace=openat,creat,write,pwrite64,writev,fsync,fdatasync,rename,renameat,renameat2,ftruncate,unlink", "-o"])
+        .args(["-f", "-e", "trace=openat,creat,write,pwrite64,writev,fsync,fdatasync,rename,renameat,renameat2,ftruncate,unlink,unlinkat", "-o"])
         .arg(&trace)
         .arg(&exe)
         .args(["--child-save", &path.to_string_lossy(), mode, &seed.to_string(), &n.to_string()])
@@ -1588,8 +1612,14 @@ fn traced_save(dir: &Path, path: &Path, mode: &str, seed: u64, n: usize) -> Resu
                         if let Ok(fd) = ret.split_whitespace().next().unwrap_or("").parse::<i64>() {
                             if fd >= 0 {
                                 fds.insert((pid.to_string(), fd.to_string()), label(p));
-                                if rest.contains("O_CREAT") || rest.contains("O_TRUNC") {
+                                // the flags decide what a LEFTOVER file of that name means for this save:
+                                // O_TRUNC empties it, O_CREAT|O_EXCL refuses it (so it was unlinked first);
+                                // a writable open with neither keeps its old bytes under and behind the new ones
+                                let writable = rest.contains("O_WRONLY") || rest.contains("O_RDWR");
+                                if rest.contains("O_TRUNC") || (rest.contains("O_CREAT") && rest.contains("O_EXCL")) {
                                     ops.push(Op::Create(label(p)));
+                                } else if rest.contains("O_CREAT") || (writable && !rest.contains("O_APPEND") && !rest.contains("O_DIRECTORY")) {
+                                    ops.push(Op::Open(label(p)));
                                 }
                             }
                         }
@@ -1610,6 +1640,11 @@ fn traced_save(dir: &Path, path: &Path, mode: &str, seed: u64, n: usize) -> Resu
             if let Some(p) = fds.get(&(pid.to_string(), fd)) {
                 ops.push(Op::Fsync(p.clone()));
             }
+        } else if rest.starts_with("unlink") {
+            let parts: Vec<&str> = rest.split('"').collect();
+            if parts.len() >= 2 && parts[1].starts_with(&dirs) && ret.starts_with('0') {
+                ops.push(Op::Unlink(label(parts[1])));
+            }
         } else if rest.starts_with("rename") {
             let parts: Vec<&str> = rest.split('"').collect();
             if parts.len() >= 4 && parts[1].starts_with(&dirs) && ret.starts_with('0') {
@@ -1627,20 +1662,52 @@ struct SimFile {
 }
 type SimFs = BTreeMap<String, SimFile>;
 
-fn apply(fs: &mut SimFs, op: &Op, data: &[u8], offs: &mut BTreeMap<String, usize>, cut: Option<usize>) {
+/// per-descriptor state of the save in flight: write offset, and whether the file was opened without truncation
+#[derive(Default, Clone)]
+struct Cursor {
+    off: BTreeMap<String, usize>,
+    keep: std::collections::BTreeSet<String>,
+}
+
+/// `bs` written in place at `off` (the model's `overlay`): a hole reads as zeros, the tail beyond stays
+fn overlay(c: &[u8], off: usize, bs: &[u8]) -> Vec<u8> {
+    let mut v = c[..off.min(c.len())].to_vec();
+    v.resize(off, 0);
+    v.extend_from_slice(bs);
+    if off + bs.len() < c.len() {
+        v.extend_from_slice(&c[off + bs.len()..]);
+    }
+    v
+}
+
+fn apply(fs: &mut SimFs, op: &Op, data: &[u8], cur: &mut Cursor, cut: Option<usize>) {
     match op {
         Op::Create(p) => {
             fs.insert(p.clone(), SimFile::default());
-            offs.insert(p.clone(), 0);
+            cur.off.insert(p.clone(), 0);
+            cur.keep.remove(p);
+        }
+        Op::Open(p) => {
+            fs.entry(p.clone()).or_default();
+            cur.off.insert(p.clone(), 0);
+            cur.keep.insert(p.clone());
         }
         Op::Write(p, n) => {
-            let o = *offs.get(p).unwrap_or(&0);
+            let o = *cur.off.get(p).unwrap_or(&0);
             let take = cut.unwrap_or(*n);
+            let bytes = &data[o.min(data.len())..(o + take).min(data.len())];
             if let Some(f) = fs.get_mut(p) {
-                f.pending.extend_from_slice(&data[o.min(data.len())..(o + take).min(data.len())]);
+                if cur.keep.contains(p) {
+                    // in-place overwrite: everything counts as un-synced until the next fsync (as in the model)
+                    let c = content(f);
+                    f.synced.clear();
+                    f.pending = overlay(&c, o, bytes);
+                } else {
+                    f.pending.extend_from_slice(bytes);
+                }
             }
             if cut.is_none() {
-                offs.insert(p.clone(), o + n);
+                cur.off.insert(p.clone(), o + n);
             }
         }
         Op::Fsync(p) => {
@@ -1656,13 +1723,16 @@ fn apply(fs: &mut SimFs, op: &Op, data: &[u8], offs: &mut BTreeMap<String, usize
                 }
             }
         }
+        Op::Unlink(p) => {
+            fs.remove(p);
+        }
     }
 }
 
 /// the `i`-th crash state in the model's enumeration order (partials of each op, then the final state)
 fn nth_crash_state(ops: &[Op], data: &[u8], fs0: &SimFs, mut i: usize) -> Option<SimFs> {
     let mut fs = fs0.clone();
-    let mut offs = BTreeMap::new();
+    let mut cur = Cursor::default();
     for op in ops {
         let parts = match op {
             Op::Write(_, n) => *n,
@@ -1670,12 +1740,12 @@ fn nth_crash_state(ops: &[Op], data: &[u8], fs0: &SimFs, mut i: usize) -> Option
         };
         if i < parts {
             if let Op::Write(..) = op {
-                apply(&mut fs, op, data, &mut offs, Some(i));
+                apply(&mut fs, op, data, &mut cur, Some(i));
             }
             return Some(fs);
         }
         i -= parts;
-        apply(&mut fs, op, data, &mut offs, None);
+        apply(&mut fs, op, data, &mut cur, None);
     }
     if i == 0 {
         Some(fs)
@@ -1891,6 +1961,619 @@ fn stream_crash(rep: &mut Report, m: &mut Model, root: &Rng, thorough: bool, sc:
     }
 }
 
+// ------------------------------------------------------------------ stream: the model's file operations against a real directory
+
+fn fnv32(b: &[u8]) -> u32 {
+    let mut h: u32 = 2_166_136_261;
+    for x in b {
+        h = (h ^ u32::from(*x)).wrapping_mul(16_777_619);
+    }
+    h
+}
+
+/// what a real directory holds under the two names, in the driver's `describeFs` form (without the un-synced counts)
+fn dir_desc(dir: &Path, name: &str, tmp_name: &str) -> String {
+    let one = |n: &str| match std::fs::read(dir.join(n)) {
+        Ok(b) => format!("{}:{}", b.len(), fnv32(&b)),
+        Err(_) => "absent".to_string(),
+    };
+    format!("tmp={} path={}", one(tmp_name), one(name))
+}
+
+fn sim_desc(fs: &SimFs, name: &str, tmp_name: &str) -> String {
+    let one = |n: &str| match fs.get(n) {
+        Some(f) => {
+            let c = content(f);
+            format!("{}:{}", c.len(), fnv32(&c))
+        }
+        None => "absent".to_string(),
+    };
+    let pend = |n: &str| fs.get(n).map(|f| f.pending.len()).unwrap_or(0);
+    format!("tmp={} path={} unsynced={}/{}", one(tmp_name), one(name), pend(tmp_name), pend(name))
+}
+
+fn strip_unsynced(s: &str) -> String {
+    s.split(" unsynced=").next().unwrap_or(s).to_string()
+}
+
+/// random sequences of create / open-without-truncate / write / fsync / rename performed with std::fs on a real
+/// directory (same open flags as `File::create` and as `OpenOptions::new().write(true).create(true)`) and on the
+/// model's directory: the contents must agree after every operation
+fn stream_fsops(rep: &mut Report, m: &mut Model, root: &Rng, scale: u64, sc: &mut Scratch) {
+    use std::io::{Seek, SeekFrom, Write};
+    let mut r = root.fork("fsops");
+    for case in 0..120 * scale {
+        let path = sc.fresh("p");
+        let dir = path.parent().unwrap().to_path_buf();
+        let names = ["p", "p.tmp"];
+        let model_name = |n: &str| if n == "p" { "path" } else { "tmp" };
+        let mut init = vec![];
+        for n in names {
+            if r.chance(2, 3) {
+                let len = *r.pick(&[0usize, 1, 5, 20, 33, 64]);
+                let b = r.bytes(len);
+                std::fs::write(dir.join(n), &b).unwrap();
+                init.push(hex(&b));
+            } else {
+                init.push("absent".to_string());
+            }
+        }
+        let ans = m.ask(&format!("fs_init {} {}", init[0], init[1]));
+        let mut trace = vec![format!("init path={} tmp={}", init[0], init[1])];
+        rep.compare("fsops", || json!({"case": case, "trace": trace}), &dir_desc(&dir, "p", "p.tmp"), &strip_unsynced(&ans));
+        // open descriptors: (file, opened without truncation, offset)
+        let mut fds: BTreeMap<&str, (std::fs::File, bool, usize)> = BTreeMap::new();
+        let steps = 2 + r.below(8);
+        for _ in 0..steps {
+            let n = *r.pick(&names);
+            let line = match r.below(10) {
+                0 | 1 => {
+                    let f = std::fs::File::create(dir.join(n)).unwrap();
+                    fds.insert(n, (f, false, 0));
+                    rep.hit("fsops.create");
+                    format!("create {}", model_name(n))
+                }
+                2 | 3 => {
+                    let f = std::fs::OpenOptions::new().write(true).create(true).open(dir.join(n)).unwrap();
+                    fds.insert(n, (f, true, 0));
+                    rep.hit("fsops.open_keep");
+                    format!("open {}", model_name(n))
+                }
+                4 | 5 | 6 => {
+                    let Some((f, keep, off)) = fds.get_mut(n) else { continue };
+                    let len = 1 + r.below(30) as usize;
+                    let b = r.bytes(len);
+                    if *keep {
+                        if r.chance(1, 6) {
+                            // leave a hole: the model fills it with zeros
+                            *off += r.below(6) as usize;
+                            f.seek(SeekFrom::Start(*off as u64)).unwrap();
+                            rep.hit("fsops.writeat_after_seek");
+                        }
+                        f.write_all(&b).unwrap();
+                        let l = format!("writeat {} {} {}", model_name(n), *off, hex(&b));
+                        *off += len;
+                        rep.hit("fsops.writeat");
+                        l
+                    } else {
+                        f.write_all(&b).unwrap();
+                        rep.hit("fsops.write");
+                        format!("write {} {}", model_name(n), hex(&b))
+                    }
+                }
+                7 => {
+                    let Some((f, _, _)) = fds.get_mut(n) else { continue };
+                    f.sync_all().unwrap();
+                    rep.hit("fsops.fsync");
+                    format!("fsync {}", model_name(n))
+                }
+                _ => {
+                    let to = *r.pick(&names);
+                    // a descriptor follows its file, the model's operations name paths: close both before a rename
+                    fds.remove(n);
+                    fds.remove(to);
+                    let ok = std::fs::rename(dir.join(n), dir.join(to)).is_ok();
+                    rep.hit(if ok { "fsops.rename" } else { "fsops.rename_missing_source" });
+                    format!("rename {} {}", model_name(n), model_name(to))
+                }
+            };
+            let ans = m.ask(&format!("fs_op {line}"));
+            trace.push(line.chars().take(60).collect());
+            let real = dir_desc(&dir, "p", "p.tmp");
+            rep.compare("fsops", || json!({"case": case, "trace": trace}), &real, &strip_unsynced(&ans));
+        }
+        rep.case("fsops", Some(&trace.join(";")));
+        drop(fds);
+        let _ = std::fs::remove_dir_all(&dir);
+    }
+}
+
+// ------------------------------------------------------------------ stream: a save after an interrupted save
+
+const STALE_CLASS: &str = "tensor_store.snapshot.save/stale_temp_file_corrupts_next_save";
+
+/// `load_kv` for comparing the loads of two DIFFERENT saves of one store: the quantising format rebuilds the entity
+/// index in file order, and two saves of one store may order their entries differently, so entity ids (and the
+/// id-keyed embedding view) are left out there; every key's data (embeddings included) is still compared by key
+fn load_kv_c(mode: &str, p: &Path) -> Result<BTreeMap<String, String>, String> {
+    load_kv(mode, p).map(|mut kv| {
+        if mode == "quant" {
+            kv.remove("\u{0}index");
+            kv.remove("\u{0}emb");
+        }
+        kv
+    })
+}
+
+fn save_mode(st: &TensorStore, mode: &str, path: &Path) -> Result<(), String> {
+    let res = guarded(std::panic::AssertUnwindSafe(|| match mode {
+        "zstd" => snapshot::save_v3(st.router(), path).map_err(|e| e.to_string()),
+        "plain" => snapshot::save_v3_uncompressed(st.router(), path).map_err(|e| e.to_string()),
+        _ => st.save_snapshot_compressed(path, CompressionConfig::default()).map_err(|e| e.to_string()),
+    }));
+    match res {
+        Ok(x) => x,
+        Err(p) => Err(format!("panic: {p}")),
+    }
+}
+
+/// the model's operation list for a save of `len` bytes, with the real file names
+fn model_save_ops(m: &mut Model, mode: &str, len: usize, name: &str, tmp_name: &str) -> Vec<Op> {
+    let quant = u8::from(mode == "quant");
+    let (hl, bl) = if mode == "quant" { (0, len) } else { (20.min(len), len.saturating_sub(20)) };
+    let text = m.ask(&format!("ops {quant} {hl} {bl}"));
+    let nm = |x: &str| if x == "tmp" { tmp_name.to_string() } else { name.to_string() };
+    text.split(';')
+        .filter_map(|o| {
+            let w: Vec<&str> = o.split(' ').collect();
+            match w.as_slice() {
+                ["create", p] => Some(Op::Create(nm(p))),
+                ["open", p] => Some(Op::Open(nm(p))),
+                ["write", p, n] => Some(Op::Write(nm(p), n.parse().ok()?)),
+                ["fsync", p] => Some(Op::Fsync(nm(p))),
+                ["rename", a, b] => Some(Op::Rename(nm(a), nm(b))),
+                _ => None,
+            }
+        })
+        .collect()
+}
+
+/// perform `ops` on the model's directory, stopping in crash state `stop` (None: run to the end); returns the
+/// model's description of the directory it ends in
+fn model_drive(m: &mut Model, ops: &[Op], data: &[u8], name: &str, tmp_name: &str, stop: Option<usize>) -> String {
+    let nm = |x: &str| if x == tmp_name { "tmp" } else if x == name { "path" } else { "other" };
+    let mut cur = Cursor::default();
+    let mut i = stop;
+    for op in ops {
+        let parts = if let Op::Write(_, n) = op { *n } else { 1 };
+        let text = |cur: &Cursor, take: usize| -> String {
+            match op {
+                Op::Create(p) => format!("create {}", nm(p)),
+                Op::Open(p) => format!("open {}", nm(p)),
+                Op::Write(p, _) => {
+                    let o = *cur.off.get(p).unwrap_or(&0);
+                    let b = &data[o.min(data.len())..(o + take).min(data.len())];
+                    if cur.keep.contains(p) {
+                        format!("writeat {} {o} {}", nm(p), hex(b))
+                    } else {
+                        format!("write {} {}", nm(p), hex(b))
+                    }
+                }
+                Op::Fsync(p) => format!("fsync {}", nm(p)),
+                Op::Rename(a, b) => format!("rename {} {}", nm(a), nm(b)),
+                Op::Unlink(p) => format!("unlink {}", nm(p)),
+            }
+        };
+        if let Some(k) = i {
+            if k < parts {
+                return m.ask(&format!("fs_cut {k} {}", text(&cur, parts)));
+            }
+            i = Some(k - parts);
+        }
+        m.ask(&format!("fs_op {}", text(&cur, parts)));
+        // keep the offsets in step with `apply`
+        match op {
+            Op::Create(p) => {
+                cur.off.insert(p.clone(), 0);
+                cur.keep.remove(p);
+            }
+            Op::Open(p) => {
+                cur.off.insert(p.clone(), 0);
+                cur.keep.insert(p.clone());
+            }
+            Op::Write(p, n) => {
+                *cur.off.entry(p.clone()).or_insert(0) += n;
+            }
+            _ => {}
+        }
+    }
+    m.ask("fs_get")
+}
+
+fn model_init(m: &mut Model, fs: &SimFs, name: &str, tmp_name: &str) -> String {
+    let arg = |n: &str| fs.get(n).map(|f| hex(&content(f))).unwrap_or_else(|| "absent".into());
+    m.ask(&format!("fs_init {} {}", arg(name), arg(tmp_name)))
+}
+
+/// make the real directory hold exactly the files of `fs`
+fn materialise(dir: &Path, fs: &SimFs, names: &[&str]) {
+    for n in names {
+        match fs.get(*n) {
+            Some(f) => std::fs::write(dir.join(n), content(f)).unwrap(),
+            None => {
+                let _ = std::fs::remove_file(dir.join(n));
+            }
+        }
+    }
+}
+
+fn read_dir_fs(dir: &Path, names: &[&str]) -> SimFs {
+    let mut fs = SimFs::new();
+    for n in names {
+        if let Ok(b) = std::fs::read(dir.join(n)) {
+            fs.insert((*n).to_string(), SimFile { synced: b, pending: vec![] });
+        }
+    }
+    fs
+}
+
+/// index (in the model's enumeration) of the crash state in which `written` bytes of the save have reached the temp file
+fn crash_index_for_written(ops: &[Op], written: usize) -> usize {
+    let mut idx = 0;
+    let mut acc = 0;
+    for op in ops {
+        match op {
+            Op::Write(_, n) => {
+                if written < acc + n {
+                    return idx + (written - acc);
+                }
+                acc += n;
+                idx += n;
+            }
+            _ => idx += 1,
+        }
+    }
+    idx
+}
+
+/// the crash points of a first save that are interesting for the save that follows
+fn pick_first_crash(r: &mut Rng, ops: &[Op], big_len: usize, next_len: usize) -> (usize, &'static str) {
+    let total = count_crash_states(ops);
+    let at = |w: usize| crash_index_for_written(ops, w.min(big_len.saturating_sub(1)));
+    match r.below(12) {
+        0 => (0, "before_create"),
+        1 => (1, "temp_empty"),
+        2 => (at(big_len * 9 / 10), "temp_90_percent"),
+        3 => (total - 3, "temp_complete_unsynced"),
+        4 => (total - 2, "temp_complete_synced"),
+        5 => (total - 1, "after_rename"),
+        6 => (at(next_len + 1), "temp_one_byte_longer_than_next"),
+        7 => (at(next_len), "temp_as_long_as_next"),
+        8 => (at(next_len.saturating_sub(1)), "temp_one_byte_shorter_than_next"),
+        9 => (at(1 + r.below(24) as usize), "temp_inside_header"),
+        _ => (at(r.below(big_len as u64) as usize), "temp_random_cut"),
+    }
+}
+
+struct AfterCrashCtx<'a> {
+    mode: &'a str,
+    name: &'a str,
+    tmp_name: String,
+    dir: PathBuf,
+    label: String,
+}
+
+/// One real, complete save of `store` on the directory as it is (with whatever an interrupted save left),
+/// then the oracles of the property's crash clause for the save that FOLLOWS a crash:
+/// the save succeeds, the path loads as exactly the store just saved, the file at the path is exactly the new
+/// snapshot (no byte of a stale temp file behind it), no temp file is left. The real directory is compared with the
+/// model's directory after the model's own save sequence.
+///
+/// `traced = Some((seed, n))`: the save is done by a child process under strace building the same store as `store`
+/// (`build_store(seed, n, ..)`); its operation list is compared with the model's — in particular HOW the temp file is
+/// opened when a leftover one exists (O_TRUNC, or O_CREAT|O_EXCL after an unlink) — and the bytes it wrote are known
+/// exactly from the trace.
+#[allow(clippy::too_many_arguments)]
+fn save_on_leftover(rep: &mut Report, m: &mut Model, seen: &mut Seen, sc: &mut Scratch, cx: &AfterCrashCtx, before: &SimFs, store: &TensorStore, traced: Option<(u64, usize)>, history: &J) -> bool {
+    let path = cx.dir.join(cx.name);
+    let names = [cx.name, cx.tmp_name.as_str()];
+    // what the save writes, learned from a save of the same store object into an empty directory (the bytes of two
+    // saves of one store may differ in entry order; the length and the loaded content are what is compared)
+    let fresh = sc.fresh(cx.name);
+    if save_mode(store, cx.mode, &fresh).is_err() {
+        rep.hit("save_after_crash.reference_save_failed");
+        return true;
+    }
+    let mut expect = std::fs::read(&fresh).unwrap();
+    let want_kv = load_kv_c(cx.mode, &fresh);
+    let _ = std::fs::remove_dir_all(fresh.parent().unwrap());
+    // the traced variant runs first: its trace tells how many bytes the new snapshot has
+    let mut traced_res: Option<Result<(), String>> = None;
+    if let Some((seed, n)) = traced {
+        match traced_save(&cx.dir, &cx.dir.join(cx.name), cx.mode, seed, n) {
+            Ok(ops) => {
+                let written: usize = ops.iter().map(|o| if let Op::Write(p, k) = o { if *p == cx.tmp_name { *k } else { 0 } } else { 0 }).sum();
+                let quant = u8::from(cx.mode == "quant");
+                let (hl, bl) = if cx.mode == "quant" { (0, written) } else { (20.min(written), written.saturating_sub(20)) };
+                let model_ops = m.ask(&format!("ops {quant} {hl} {bl}"));
+                let real_ops = op_text(&ops).replace(&cx.tmp_name, "tmp").replace(cx.name, "path");
+                rep.compare("save_after_crash.ops", || json!({"mode": cx.mode, "case": cx.label, "history": history, "what": "operations of a real save started on a directory with a leftover temp file (strace)"}), &real_ops, &model_ops);
+                let first = ops.iter().position(|o| matches!(o, Op::Create(p) | Op::Open(p) if *p == cx.tmp_name));
+                let kind = match first.map(|i| (&ops[i], i > 0 && matches!(&ops[i - 1], Op::Unlink(p) if *p == cx.tmp_name))) {
+                    Some((Op::Create(_), true)) => "exclusive_or_truncating_after_unlink",
+                    Some((Op::Create(_), false)) => "truncating",
+                    Some((Op::Open(_), _)) => "NOT_TRUNCATING",
+                    _ => "not_seen",
+                };
+                rep.hit(&format!("save_after_crash.temp_open_flags.{kind}"));
+                expect.resize(written, 0);
+                traced_res = Some(Ok(()));
+            }
+            Err(e) => {
+                rep.hit("save_after_crash.strace_unavailable");
+                if !e.starts_with("strace not runnable") {
+                    traced_res = Some(Err(e));
+                }
+            }
+        }
+    }
+    let stale = before.get(&cx.tmp_name).map(content);
+    let stale_len = stale.as_ref().map(Vec::len);
+    let input = |extra: J| {
+        json!({"mode": cx.mode, "case": cx.label, "history": history, "leftover_temp_file_bytes": stale_len,
+               "previous_snapshot_bytes": before.get(cx.name).map(|f| content(f).len()), "new_snapshot_bytes": expect.len(), "observed": extra})
+    };
+    rep.hit(&format!(
+        "save_after_crash.leftover.{}",
+        match stale_len {
+            None => "none",
+            Some(l) if l > expect.len() => "longer_than_new",
+            Some(l) if l == expect.len() => "same_length_as_new",
+            Some(_) => "shorter_than_new",
+        }
+    ));
+    let class = if stale_len.is_some() { STALE_CLASS } else { "tensor_store.snapshot.save/save_after_completed_crash_not_exact" };
+    let res = match traced_res {
+        Some(r) => r,
+        None => save_mode(store, cx.mode, &path),
+    };
+    let mut ok = true;
+    if let Err(e) = &res {
+        seen.violation(rep, class, "a save on the directory an interrupted save left behind fails: later saves do not keep working", input(json!({"save_error": e})));
+        return false;
+    }
+    let got = load_kv_c(cx.mode, &path);
+    let after = read_dir_fs(&cx.dir, &names);
+    let p_bytes = after.get(cx.name).map(content).unwrap_or_default();
+    let mut keep_diag: Option<bool> = None;
+    // correspondence: the real directory after the real save vs the model's directory after the model's own save
+    // sequence writing the new snapshot (= the first `new snapshot length` bytes the real save put at the path)
+    if p_bytes.len() >= expect.len() {
+        model_init(m, before, cx.name, &cx.tmp_name);
+        let ops = model_save_ops(m, cx.mode, expect.len(), cx.name, &cx.tmp_name);
+        let new_bytes = &p_bytes[..expect.len()];
+        let md = model_drive(m, &ops, new_bytes, cx.name, &cx.tmp_name, None);
+        let real = dir_desc(&cx.dir, cx.name, &cx.tmp_name);
+        // the same through the model's whole-sequence functions: `saveOps`/`saveOpsQ` (the code), and the
+        // non-truncating variant `saveOpsKeep`/`saveOpsQKeep` (NOT the code) as a diagnosis of a mismatch
+        let quant = u8::from(cx.mode == "quant");
+        let cutp = if cx.mode == "quant" { 0 } else { 20.min(new_bytes.len()) };
+        model_init(m, before, cx.name, &cx.tmp_name);
+        let whole = m.ask(&format!("fs_save {quant} 0 {} {}", hex(&new_bytes[..cutp]), hex(&new_bytes[cutp..])));
+        rep.compare("save_after_crash.model_sequence", || json!({"mode": cx.mode, "what": "applyOps over saveOps vs the same operations sent one by one"}), &md, &whole);
+        model_init(m, before, cx.name, &cx.tmp_name);
+        let keep = m.ask(&format!("fs_save {quant} 1 {} {}", hex(&new_bytes[..cutp]), hex(&new_bytes[cutp..])));
+        let is_keep = strip_unsynced(&keep) == real && strip_unsynced(&md) != real;
+        keep_diag = Some(is_keep);
+        rep.compare("save_after_crash.final", || input(json!({"real_directory": real, "model_directory": md, "model_of_a_non_truncating_open_predicts_the_real_directory": is_keep})), &real, &strip_unsynced(&md));
+    } else {
+        rep.hit("save_after_crash.snapshot_length_varies");
+    }
+    // bytes of the stale temp file that sit behind the new snapshot in the file at the path
+    let tail_of_stale = match &stale {
+        Some(st) if p_bytes.len() > expect.len() && p_bytes.len() == st.len() => {
+            let common = p_bytes.iter().rev().zip(st.iter().rev()).take_while(|(a, b)| a == b).count();
+            common.min(p_bytes.len() - expect.len())
+        }
+        _ => 0,
+    };
+    // oracle 1: load gives exactly the store that was just saved
+    if got.is_err() || got != want_kv {
+        ok = false;
+        seen.violation(
+            rep,
+            class,
+            "the save after an interrupted save returned Ok, but loading the path does not give the store just saved (and the previous good snapshot is gone)",
+            input(json!({"load": match &got { Err(e) => e.clone(), Ok(_) => "loads, but as different content".into() },
+                         "file_at_path_bytes": p_bytes.len(), "bytes_of_stale_temp_file_behind_new_snapshot": tail_of_stale,
+                         "model_of_a_non_truncating_open_predicts_the_real_directory": keep_diag})),
+        );
+    }
+    // oracle 2: nothing of the stale temp file beyond the new snapshot's length
+    if ok && tail_of_stale > 0 {
+        ok = false;
+        seen.violation(rep, class, "the file at the path after the save carries bytes of the stale temp file behind the new snapshot", input(json!({"file_at_path_bytes": p_bytes.len(), "bytes_of_stale_temp_file_behind_new_snapshot": tail_of_stale})));
+    }
+    // oracle 3: no temp file left
+    if after.contains_key(&cx.tmp_name) {
+        ok = false;
+        seen.violation(rep, "tensor_store.snapshot.save/temp_file_left_behind", "temp file exists after a successful save", input(json!({"temp_file_bytes": after.get(&cx.tmp_name).map(|f| content(f).len())})));
+    }
+    rep.hit(if ok { "save_after_crash.next_save.exact" } else { "save_after_crash.next_save.BROKEN" });
+    ok
+}
+
+/// a crash state of a save started on `before`, as a real directory; checks old-or-new at the path and the model's state
+#[allow(clippy::too_many_arguments)]
+fn crash_on_leftover(rep: &mut Report, m: &mut Model, seen: &mut Seen, cx: &AfterCrashCtx, before: &SimFs, ops: &[Op], data: &[u8], idx: usize, allowed: &[&Result<BTreeMap<String, String>, String>], history: &J) -> Option<SimFs> {
+    let names = [cx.name, cx.tmp_name.as_str()];
+    let st = nth_crash_state(ops, data, before, idx)?;
+    materialise(&cx.dir, &st, &names);
+    model_init(m, before, cx.name, &cx.tmp_name);
+    let md = model_drive(m, ops, data, cx.name, &cx.tmp_name, Some(idx));
+    let sd = sim_desc(&st, cx.name, &cx.tmp_name);
+    rep.compare("save_after_crash.state", || json!({"mode": cx.mode, "case": cx.label, "history": history, "index": idx, "trace": op_text(ops)}), &sd, &md);
+    if data.len() <= 3000 && !ops.iter().any(|o| matches!(o, Op::Open(_) | Op::Unlink(_))) {
+        // the model's own enumeration `crashStates` of its save sequence, started on the same directory
+        let quant = u8::from(cx.mode == "quant");
+        let cutp = if cx.mode == "quant" { 0 } else { 20.min(data.len()) };
+        model_init(m, before, cx.name, &cx.tmp_name);
+        let en = m.ask(&format!("fs_crash {quant} 0 {} {} {idx}", hex(&data[..cutp]), hex(&data[cutp..])));
+        rep.compare("save_after_crash.model_enumeration", || json!({"mode": cx.mode, "index": idx, "what": "crashStates[i] vs the operations sent one by one with the i-th cut"}), &md, &en);
+        rep.hit("save_after_crash.crash_state.cross_checked_with_crashStates");
+    }
+    let got = load_kv_c(cx.mode, &cx.dir.join(cx.name));
+    let fine = match (&got, st.contains_key(cx.name)) {
+        (Err(_), false) => allowed.iter().any(|a| a.is_err()), // nothing at the path before, nothing now
+        _ => got.is_ok() && allowed.iter().any(|a| **a == got),
+    };
+    rep.hit(if fine { "save_after_crash.crash_state.old_or_new" } else { "save_after_crash.crash_state.TORN" });
+    if !fine {
+        seen.violation(rep, "tensor_store.snapshot.save/crash_state_neither_old_nor_new", "a crash state of a save that started on the leftovers of an interrupted save loads as neither the previous nor the new snapshot", json!({"mode": cx.mode, "case": cx.label, "history": history, "index": idx, "crash_state": sd, "load": match &got { Err(e) => e.clone(), Ok(_) => "content that is neither old nor new".into() }, "trace": op_text(ops)}));
+    }
+    // the next save starts from the directory as it is on disk (a process crash loses no written byte)
+    Some(read_dir_fs(&cx.dir, &names))
+}
+
+fn stream_save_after_crash(rep: &mut Report, m: &mut Model, root: &Rng, thorough: bool, sc: &mut Scratch) {
+    let mut r = root.fork("save_after_crash");
+    let mut seen = Seen(BTreeMap::new());
+    let modes = ["plain", "zstd", "quant"];
+    let have_prlimit = std::process::Command::new("prlimit").arg("--version").output().map(|o| o.status.success()).unwrap_or(false);
+    if !have_prlimit {
+        rep.note("prlimit unavailable: the really-killed first save of the directed save_after_crash cases is replaced by a reconstructed crash state");
+    }
+    let random_cases = if thorough { 150 } else { 14 };
+    for mode in modes {
+        for case in 0..(2 + random_cases) {
+            let name = if mode == "quant" { "store.cmp" } else { "store.snap" };
+            let path = sc.fresh(name);
+            let dir = path.parent().unwrap().to_path_buf();
+            let tmp_name = snapshot::temp_path_for(&path).file_name().unwrap().to_string_lossy().to_string();
+            let names = [name, tmp_name.as_str()];
+            let directed = case < 2;
+            let (n_old, n_big, n_next, n_last) = if directed {
+                (5usize, if case == 0 { 120usize } else { 260 }, 4usize, 6usize)
+            } else {
+                (r.below(7) as usize, 20 + r.below(if thorough { 500 } else { 160 }) as usize, r.below(10) as usize, r.below(10) as usize)
+            };
+            let (s_old, s_big, s_next, s_last) = (r.next_u64(), r.next_u64(), r.next_u64(), r.next_u64());
+            let cx = AfterCrashCtx { mode, name, tmp_name: tmp_name.clone(), dir: dir.clone(), label: format!("{mode}#{case}") };
+            // 0. the previous complete snapshot
+            let old = build_store(s_old, n_old, false);
+            if save_mode(&old.store, mode, &path).is_err() {
+                continue;
+            }
+            let old_kv = load_kv_c(mode, &path);
+            let fs0 = read_dir_fs(&dir, &names);
+            // the store of the save that follows the crash
+            let next = build_store(s_next, n_next, false);
+            let next_ref = sc.fresh(name);
+            let next_len = if save_mode(&next.store, mode, &next_ref).is_ok() { std::fs::read(&next_ref).map(|b| b.len()).unwrap_or(0) } else { 0 };
+            let next_kv = load_kv_c(mode, &next_ref);
+            let next_bytes = std::fs::read(&next_ref).unwrap_or_default();
+            let _ = std::fs::remove_dir_all(next_ref.parent().unwrap());
+            // 1. a save of a LARGE store is interrupted
+            let mut history = json!({"previous_snapshot": {"seed": s_old, "entries": n_old}, "interrupted_save": {"seed": s_big, "entries": n_big}, "next_save": {"seed": s_next, "entries": n_next}});
+            let st1: SimFs;
+            let big_kv;
+            if directed && case == 1 && have_prlimit {
+                // a REAL crash: the child is killed by the kernel (RLIMIT_FSIZE -> SIGXFSZ) once the temp file has `cut` bytes
+                let probe = sc.fresh(name);
+                child_save(&probe.to_string_lossy(), mode, s_big, n_big);
+                let big_len = std::fs::read(&probe).map(|b| b.len()).unwrap_or(0);
+                let _ = std::fs::remove_dir_all(probe.parent().unwrap());
+                let cut = big_len * 9 / 10;
+                let exe = std::env::current_exe().unwrap();
+                let out = std::process::Command::new("prlimit")
+                    .args([&format!("--fsize={cut}"), "--core=0"])
+                    .arg(&exe)
+                    .args(["--child-save", &path.to_string_lossy(), mode, &s_big.to_string(), &n_big.to_string()])
+                    .output();
+                let killed = matches!(&out, Ok(o) if !o.status.success());
+                rep.hit(if killed { "save_after_crash.first_save.really_killed" } else { "save_after_crash.first_save.kill_did_not_happen" });
+                st1 = read_dir_fs(&dir, &names);
+                let left = st1.get(&tmp_name).map(|f| content(f).len());
+                history["interrupted_save"]["how"] = json!(format!("child process killed by RLIMIT_FSIZE={cut} of ~{big_len} bytes; temp file left with {left:?} bytes"));
+                // the model's crash state with that many bytes in the temp file (content as found on disk)
+                if let (true, Some(tb)) = (killed, st1.get(&tmp_name).map(content)) {
+                    let ops1 = model_save_ops(m, mode, big_len.max(tb.len() + 1), name, &tmp_name);
+                    model_init(m, &fs0, name, &tmp_name);
+                    let mut data = tb.clone();
+                    data.resize(big_len.max(tb.len() + 1), 0);
+                    let md = model_drive(m, &ops1, &data, name, &tmp_name, Some(crash_index_for_written(&ops1, tb.len())));
+                    let real = dir_desc(&dir, name, &tmp_name);
+                    rep.compare("save_after_crash.real_kill", || json!({"mode": mode, "history": history}), &real, &strip_unsynced(&md));
+                }
+                big_kv = Err("not completed".to_string());
+            } else {
+                let big = build_store(s_big, n_big, n_big >= 100);
+                let big_ref = sc.fresh(name);
+                if save_mode(&big.store, mode, &big_ref).is_err() {
+                    continue;
+                }
+                let big_bytes = std::fs::read(&big_ref).unwrap();
+                big_kv = load_kv_c(mode, &big_ref);
+                let _ = std::fs::remove_dir_all(big_ref.parent().unwrap());
+                let ops1 = model_save_ops(m, mode, big_bytes.len(), name, &tmp_name);
+                let (i1, kind) = if directed { (crash_index_for_written(&ops1, big_bytes.len() * 9 / 10), "temp_90_percent") } else { pick_first_crash(&mut r, &ops1, big_bytes.len(), next_len) };
+                rep.hit(&format!("save_after_crash.first_crash.{kind}"));
+                history["interrupted_save"]["how"] = json!(format!("crash state {i1} of {} ({kind}) of the save's operations {}", count_crash_states(&ops1), op_text(&ops1)));
+                let allowed = [&old_kv, &big_kv];
+                let Some(s) = crash_on_leftover(rep, m, &mut seen, &cx, &fs0, &ops1, &big_bytes, i1, &allowed, &history) else { continue };
+                st1 = s;
+            }
+            // crash atomicity of the first save, on the real directory
+            let after1_kv = load_kv_c(mode, &path);
+            if !(after1_kv.is_ok() && (after1_kv == old_kv || after1_kv == big_kv)) {
+                seen.violation(rep, "tensor_store.snapshot.save/crash_state_neither_old_nor_new", "after the interrupted save the path loads as neither the previous nor the new snapshot", json!({"mode": mode, "history": history, "load": after1_kv.as_ref().err()}));
+            }
+            // 2. either the next save completes, or it is interrupted too and a third one completes
+            let second_crashes = if directed { false } else { r.chance(1, 2) };
+            if !second_crashes {
+                if directed && case == 0 {
+                    // the demo's shape: recover from the path, one more write, save again
+                    let rec = if mode == "quant" { TensorStore::load_snapshot_compressed(&path).ok() } else { TensorStore::load_snapshot(&path).ok() };
+                    if let Some(rec) = rec {
+                        let mut d = TensorData::new();
+                        d.set("id", TensorValue::Scalar(ScalarValue::Int(77)));
+                        d.set("payload", TensorValue::Scalar(ScalarValue::String("after the crash".into())));
+                        let _ = rec.put("user:new", d);
+                        history["next_save"] = json!("the store recovered from the path after the crash, plus one key");
+                        save_on_leftover(rep, m, &mut seen, sc, &cx, &st1, &rec, None, &history);
+                    }
+                } else {
+                    save_on_leftover(rep, m, &mut seen, sc, &cx, &st1, &next.store, if directed { Some((s_next, n_next)) } else { None }, &history);
+                }
+            } else {
+                let ops2 = model_save_ops(m, mode, next_bytes.len(), name, &tmp_name);
+                let total2 = count_crash_states(&ops2);
+                let i2 = match r.below(7) {
+                    0 => 0,
+                    1 => 1,
+                    2 => crash_index_for_written(&ops2, (1 + r.below(19) as usize).min(next_bytes.len().saturating_sub(1))),
+                    3 => total2 - 3,
+                    4 => total2 - 2,
+                    5 => total2 - 1,
+                    _ => r.below(total2 as u64) as usize,
+                };
+                history["next_save"]["how"] = json!(format!("interrupted too: crash state {i2} of {total2}"));
+                history["last_save"] = json!({"seed": s_last, "entries": n_last});
+                rep.hit("save_after_crash.second_save_interrupted");
+                let allowed = [&after1_kv, &next_kv];
+                let Some(st2) = crash_on_leftover(rep, m, &mut seen, &cx, &st1, &ops2, &next_bytes, i2, &allowed, &history) else { continue };
+                let last = build_store(s_last, n_last, false);
+                save_on_leftover(rep, m, &mut seen, sc, &cx, &st2, &last.store, None, &history);
+            }
+            rep.case("save_after_crash", Some(&format!("{mode}|{case}|{s_big}|{n_big}|{n_next}")));
+            if case == 0 && mode == "plain" {
+                rep.sample(json!({"stream": "save_after_crash", "mode": mode, "history": history, "directory_before_next_save": sim_desc(&st1, name, &tmp_name), "directory_after": dir_desc(&dir, name, &tmp_name)}));
+            }
+            let _ = std::fs::remove_dir_all(&dir);
+        }
+    }
+}
+
 // ------------------------------------------------------------------ main
 
 fn main() {
@@ -1919,7 +2602,10 @@ fn main() {
     stream_stores(&mut rep, &mut m, &root, args.thorough, &mut sc);
     stream_route(&mut rep, &mut m, &root, scale, &mut sc);
     stream_crash(&mut rep, &mut m, &root, args.thorough, &mut sc);
+    stream_fsops(&mut rep, &mut m, &root, scale, &mut sc);
+    stream_save_after_crash(&mut rep, &mut m, &root, args.thorough, &mut sc);
     rep.note("bitcode, zstd and the tensor-train kernels are opaque: the model frames and routes their bytes, the harness checks their round-trip and their rejection of truncated input on the real crates");
     rep.note("crash model of the property: any prefix of the save's file operations (create temp, write header, write body, sync_all, rename), the write in flight cut at any byte, rename atomic; on top of each crash state, power loss = un-synced bytes of the path's file cut at any byte (none exist with sync_all before the rename); durability of the directory entry is not modelled");
+    rep.note("crash clause over a SEQUENCE of saves: an interrupted save leaves its temp file (any prefix of the snapshot, or all of it) in a real directory, then the real save runs on that directory (in process, and once per format in a strace'd child after a first save really killed by RLIMIT_FSIZE): it must succeed, the path must load as exactly the store just saved, carry no byte of the stale temp file, and no temp file may remain; chains crash / crash / save are covered; the model's file operations (create = truncate, open-without-truncate, write, write-at-offset, fsync, rename) are run against std::fs on a real directory");
     rep.write(&args.out);
 }
